@@ -20,8 +20,11 @@ import (
 type Collection struct {
 	*config
 
-	mu   sync.RWMutex // protects byId and rng from concurrent access
+	mu   sync.RWMutex // protects byId from concurrent access
 	byId map[string]*item
+	// rngMu serialises use of rng: ids are generated during the optimistic read phase of Update,
+	// i.e. while holding only mu.RLock, and the default *rand.Rand is not safe for concurrent use.
+	rngMu sync.Mutex
 	// "change" events contain a *CollectionChange instance
 	bus minibus.Bus
 }
@@ -361,6 +364,8 @@ func (c *Collection) itemSlice(readConfig *ReadRequest) []idItem {
 }
 
 func (c *Collection) genID() (string, error) {
+	c.rngMu.Lock()
+	defer c.rngMu.Unlock()
 	id, err := GenerateUniqueId(c.rng, func(candidate string) bool {
 		if c.idInterceptor != nil {
 			candidate = c.idInterceptor(candidate)
